@@ -156,6 +156,21 @@ def check_views(topo, tm: TM, probe_mutation=True):
             if got != exp:
                 out.append(('view-differs:node.interface_list', 'node.interface_list lists the interfaces of the node and its components',
                             {'node': name, 'got': got, 'expected': exp}))
+            # every interface handle the node hands out (ports and, through them, sub-interfaces) lists exactly its own sub-interfaces
+            stack, seen_if = list(node.interface_list)[:8], set()
+            while stack:
+                ih = stack.pop()
+                if ih.node_id in seen_if or ih.node_id not in tm.n:
+                    continue
+                seen_if.add(ih.node_id)
+                kids = list(ih.interface_list)
+                got = sorted(i.node_id for i in kids)
+                exp = sorted(tm.children(ih.node_id)) if tm.typ(ih.node_id) != 'SubInterface' else []
+                if got != exp or sorted(i.node_id for i in ih.interfaces.values()) != sorted(set(exp)) and len({tm.name(x) for x in exp}) == len(exp):
+                    out.append(('view-differs:interface.interface_list', 'the interface list of an interface lists exactly its sub-interfaces',
+                                {'interface': tm.name(ih.node_id), 'type': tm.typ(ih.node_id), 'got': got, 'expected': exp}))
+                    break
+                stack.extend(k for k in kids if k.node_id in exp)
         except Exception as e:
             out.append(('view-raises:node', 'node views can be read', {'node': name, 'error': f'{type(e).__name__}: {str(e)[:200]}'}))
     for name, svc in list(topo.network_services.items())[:6]:
